@@ -371,8 +371,11 @@ func (broker *Broker) recover() (send []sts.Hashed, err error) {
 			var beg int64
 			var missing chunks
 			for _, part := range parts {
-				if beg == part.Beg {
-					beg = part.End
+				if part.Beg <= beg {
+					// (the ranges on record may overlap)
+					if part.End > beg {
+						beg = part.End
+					}
 					continue
 				}
 				missing = append(missing, &sts.ByteRange{
